@@ -3,8 +3,11 @@ and the ReST docstring layers of C01).
 
 Oracle: real  emit.class_ -> ast.unparse -> ast.parse -> parse.class_  on generated interface descriptions x default
 text on/off x word-wrap on/off, compared with same_interface after the permitted zero-value normalisation.  Every
-failure is classified by the executable Coq classifier C02Spec.finding_class_C02 (through the driver); a failure the
-classifier does not name is a violation.  Points outside C02_domain (names that are not distinct identifiers) and
+failure is classified by the executable Coq classifier C02Spec2.finding_class_C02_r (through the driver: C02Spec's
+finding_class_C02 refined by the classes negative-zero-default and prose-exotic-blank that proofs found inside its "no
+finding" region); a failure the classifier does not name is a violation, and a new class stands only for the failure it
+describes (the -0.0 default coming back 0.0; the prose of the entry with the exotic blank) - any other difference at
+such a point is a violation.  A stratum of the oracle draws those shapes.  Points outside C02_domain (names that are not distinct identifiers) and
 points whose defaults are not scalars (class `unmodelled`) are skipped."""
 import fam_parseast
 import fam_emitast
@@ -33,9 +36,12 @@ TRUSTED = [
     "finding_class_C02",
     "ast.parse on type strings is the TyExpr model (parse_ty / ty2expr); strings outside its canonical fragment, code-quoted "
     "defaults and return defaults go through a recorded parse table in correspondence and are outside guard_C02_ast",
-    "finding_class_C02 (the partition of the failures of the real code) is validated by the oracle on every run, not proved "
-    "complete; the proof found one failure it does not name (float default -0.0 comes back 0.0: theorem "
-    "C02_negative_zero_unclassified); guard_C02_ast covers about 86% of the generated points the classifier leaves unflagged",
+    "finding_class_C02_r (the partition of the failures of the real code: finding_class_C02 plus the two classes of "
+    "model/C02Spec2.v) is validated by the oracle on every run, not proved complete; the proofs found two failures the first "
+    "classifier did not name (float default -0.0 comes back 0.0: theorem C02_negative_zero_unclassified; prose with a form "
+    "feed or another line boundary is re-flowed), now the classes negative-zero-default and prose-exotic-blank "
+    "(proofs/C02Spec2Facts.v: the refinement only adds these, its guard is inside guard_C02); guard_C02_ast covers about 86% "
+    "of the generated points the classifier leaves unflagged",
 ]
 
 
@@ -51,7 +57,7 @@ def _theorem_guard_audit(rng, n):
     g = run_model([dumps([Sym("c02_ast_check"), e, o["word_wrap"], False, o["word_wrap"]]) for e, (_, o, _) in zip(enc, pts)])
     if any(r == "bad-request" for r in g[:1]):
         return {"theorem-guard:family-not-in-driver": 1}, []
-    cls = run_model([dumps([Sym("c02_class"), o["emit_default_doc"], o["word_wrap"], e]) for e, (_, o, _) in zip(enc, pts)])
+    cls = run_model([dumps([Sym("c02_class_r"), o["emit_default_doc"], o["word_wrap"], e]) for e, (_, o, _) in zip(enc, pts)])
     hist, failures, rel_reqs, rel_cases = {"theorem-guard:inside": 0, "theorem-guard:points": n}, [], [], []
     for (ir, o, _), a, c in zip(pts, g, cls):
         ga = loads(a)
@@ -79,6 +85,140 @@ def _theorem_guard_audit(rng, n):
     return hist, failures
 
 
+# ------------------------------------------------------------------ the classes of model/C02Spec2.v
+NEW_CLASSES = ("negative-zero-default", "prose-exotic-blank")
+
+
+def _entry(ir, n):
+    if n == "return_type":
+        return ((ir.get("returns") or {}).get("return_type")) if ir.get("returns") else None
+    return (ir.get("params") or {}).get(n)
+
+
+def _refined(pts):
+    """[(refined class or None or 'out-of-domain', new classes that apply, entries with a -0.0 default under a scalar type,
+    entries with exotic prose)] for (ir, opts) points, from C02Spec2 (c02_class_r, c02_new_classes)"""
+    from common import Sym, dumps, loads, run_model, unhx
+    import irwire
+    reqs = []
+    for ir, o in pts:
+        e = irwire.enc_ir(fam_parseast._od(ir))
+        reqs += [dumps([Sym(f), o["emit_default_doc"], o["word_wrap"], e]) for f in ("c02_class_r", "c02_new_classes")]
+    out, resp = [], run_model(reqs)
+    for k in range(len(pts)):
+        ce, nw = loads(resp[2 * k]), loads(resp[2 * k + 1])
+        cls = "out-of-domain" if ce == "out-of-domain" else None if ce == "none" else unhx(ce[1])
+        out.append((cls, [unhx(x) for x in nw[0]], [unhx(x) for x in nw[1]], [unhx(x) for x in nw[2]]))
+    return out
+
+
+def described_by_new_classes(ir, out, negz, exotic):
+    """a new class stands for the failure it describes only: the parsed-back description must be the input with (a) the
+    -0.0 defaults of the named entries replaced by 0.0 and (b) the prose of the entries with an exotic blank changed in
+    whatever way - every other difference (and an exception anywhere) is not what these classes describe"""
+    import copy
+    if out is None:
+        return False
+    exp = copy.deepcopy(ir)
+    for n in negz:
+        if _entry(exp, n) is not None:
+            _entry(exp, n)["default"] = 0.0
+    for n in exotic:
+        if _entry(exp, n) is not None and _entry(out, n) is not None:
+            _entry(exp, n)["doc"] = _entry(out, n).get("doc")
+    return not fam_parseast.same_interface(exp, out, "class")
+
+
+def _gen_new_shape(rng):
+    """an (ir, opts, tags) point with one of the shapes the proofs found: a float default -0.0 (mostly under the scalar
+    type float), prose with a line boundary other than the line feed inside (a parameter or the return entry); alone or
+    next to clean parameters"""
+    from collections import OrderedDict
+    import gen_ir
+    import gen_text as G
+    ir, tags = gen_ir.gen_ir(rng, nparams=rng.choice([0, 0, 1, 2]), returns="none", kwargs=False, clean=True)
+    ir["doc"] = G.clean_prose(rng, max_words=6)
+    k = rng.random()
+    name = G.ident(rng)
+    while name in ir["params"]:
+        name = G.ident(rng)
+    if k < 0.5:
+        p = {"doc": G.clean_prose(rng), "typ": rng.choice(["float", "float", "float", "Optional[float]"]), "default": -0.0}
+        tags = ["negative-zero", "typ:" + p["typ"]]
+    elif k < 0.85:
+        typ = rng.choice(["int", "str", "float", "Optional[int]", "List[str]"])
+        p = {"doc": G.exotic_blank_prose(rng), "typ": typ}
+        d = gen_ir.consistent_default(rng, typ, ["absent", "value", "value"])
+        if d[0] != "absent":
+            p["default"] = d[1]
+        tags = ["exotic-blank-prose:param"]
+    else:
+        p = {"doc": G.clean_prose(rng), "typ": "int", "default": 5}
+        ir["returns"] = OrderedDict((("return_type", {"doc": G.exotic_blank_prose(rng),
+                                                      "typ": rng.choice(["int", "List[str]", "np.ndarray"])}),))
+        tags = ["exotic-blank-prose:return"]
+    items = list(ir["params"].items())
+    items.insert(rng.randint(0, len(items)), (name, p))
+    ir["params"] = OrderedDict(items)
+    return ir, {"emit_default_doc": rng.random() < 0.3, "word_wrap": rng.random() < 0.5}, tags
+
+
+def _classify_failure(case, out, info):
+    """the class a failure at a point is reported under: the refined class, except that a NEW class is kept only when the
+    failure is what the new classes that apply describe (otherwise None: a violation).  -> (class, note)"""
+    cls, news, negz, exotic = info
+    if cls in NEW_CLASSES and not described_by_new_classes(case["ir"], out, negz, exotic):
+        return None, " [not what the recorded class%s %s describe%s]" % ("es" if len(news) > 1 else "", ", ".join(news),
+                                                                        "" if len(news) > 1 else "s")
+    return cls, ""
+
+
+def _new_shape_oracle(rng, n):
+    """stratum: the shapes of _gen_new_shape through the real round trip, classified by the refined classifier"""
+    import collections
+    F = fam_parseast
+    pts = [_gen_new_shape(rng) for _ in range(n)]
+    infos = _refined([(ir, o) for ir, o, _ in pts])
+    hist, failures = collections.Counter(), []
+    n_eval = 0
+    for (ir, o, tags), info in zip(pts, infos):
+        cls = info[0]
+        if cls == "out-of-domain":
+            hist["new-shapes:out-of-domain"] += 1
+            continue
+        case = {"kind": "class", "ir": ir, "opts": o}
+        ok, what, out = F.round_trip("class", ir, o)
+        n_eval += 1
+        if cls == "unmodelled":
+            continue
+        if not ok:
+            cls, note = _classify_failure(case, out, info)
+            failures.append({"case": case, "what": what + note, "class": cls})
+        hist["new-shapes:%s:%s:%s" % (tags[0], "holds" if ok else "fails", cls or "in-guard")] += 1
+    hist["new-shapes:points"] = n_eval
+    return dict(hist), failures
+
+
+def _reclassify(failures):
+    """failures of the main stream that finding_class_C02 does not name: ask the refined classifier"""
+    idx = [k for k, f in enumerate(failures) if f.get("class") is None and isinstance(f.get("case"), dict)
+           and f["case"].get("kind") == "class" and "ir" in f["case"] and "opts" in f["case"]]
+    if not idx:
+        return {}
+    infos = _refined([(failures[k]["case"]["ir"], failures[k]["case"]["opts"]) for k in idx])
+    hist = {}
+    for k, info in zip(idx, infos):
+        if info[0] not in NEW_CLASSES:
+            continue
+        f = failures[k]
+        _, _, out = fam_parseast.round_trip("class", f["case"]["ir"], f["case"]["opts"])
+        cls, note = _classify_failure(f["case"], out, info)
+        f["class"], f["what"] = cls, f["what"] + note
+        key = "reclassified:" + (cls or "not-described")
+        hist[key] = hist.get(key, 0) + 1
+    return hist
+
+
 def oracle(rng, tier):
     n = 3000 if tier == "quick" else 40000
     res = fam_parseast.oracle_class(rng, n)
@@ -86,8 +226,16 @@ def oracle(rng, tier):
     res["histogram"].update(hist)
     res["failures"] += failures
     res["evaluations"] += hist.get("theorem-guard:points", 0)
-    res["rule"] += (" | audit of the theorem's guard: points inside guard_C02_ast that finding_class_C02 does not flag must round-trip on "
+    res["rule"] += (" | audit of the theorem's guard: points inside guard_C02_ast that finding_class_C02_r does not flag must round-trip on "
                     "the real code and be same_interface_strict to the zero-normalised input")
+    res["histogram"].update(_reclassify(res["failures"]))
+    hist, failures = _new_shape_oracle(rng, 300 if tier == "quick" else 3000)
+    res["histogram"].update(hist)
+    res["failures"] += failures
+    res["evaluations"] += hist.get("new-shapes:points", 0)
+    res["rule"] += (" | stratum of the shapes proofs found inside the first classifier's no-finding region (float default -0.0; prose "
+                    "with a form feed / vertical tab / CR / FS / GS / RS inside), classified by finding_class_C02_r; a new class "
+                    "stands only for the difference it describes")
     return res
 
 
